@@ -387,3 +387,9 @@ func CompareOp(e ast.Expr) (ast.Expr, token.Token, ast.Expr, bool) {
 	}
 	return nil, 0, nil, false
 }
+
+// IsPkgConst reports whether e names the package-level constant pkgPath.name.
+func IsPkgConst(info *types.Info, e ast.Expr, pkgPath, name string) bool {
+	c := ConstObj(info, e)
+	return c != nil && c.Pkg() != nil && c.Pkg().Path() == pkgPath && c.Name() == name
+}
